@@ -9,6 +9,9 @@ NOTE = ("trusted: rustc nightly MIR printer, the mirsym executor and its closed 
 CLAIMS = {
  'C20': ("codec round trips (varint, delta, id lists, RLE) and decoder totality on arbitrary bytes, for every value within the stated lengths", "§4 C20"),
  'C01': ("per-handler inductive Raft obligations (terms monotone, one vote per term to an up-to-date candidate, persisted before reply; AppendEntries acknowledges/commits only the vouched prefix and matches the leader's entries; leader commit rule; stale responses ignored; election quorum; pre-vote read-only) for every pre-state and message of the bounded shape; the composition into cluster-level safety is the textbook argument, not machine-checked", "§4 C01"),
+ 'C02': ("durable store, log framing only: every acknowledged log record is read back in order after a crash at any byte of the last record (immediate sync) or at any length above the synced length (manual sync), and after a further append + restart; slab contents/checkpoints are not decided", "§4 C02"),
+ 'C10': ("RaftWal: crash at every byte of the last record, reopen, append, restart: no acknowledged term/vote/log record is lost; recovery classification returns the last persisted term and vote", "§4 C10"),
+ 'C13': ("TxWal: same crash obligations as C10; TxRecoveryState::from_entries never resurrects a completed transaction, returns prepared ones with their votes, forgets preparing ones and lists orphaned lock handles exactly", "§4 C13"),
  'C17': ("newer-wins kernel is a strict order; the real merge gives the same view for every order/batching/repetition of the same updates; clock and incarnations never regress under any single operation", "§4 C17"),
 }
 NA = {
